@@ -197,3 +197,42 @@ def decode_one(case):
 
 def decode_coq(case):
     return f"({vals.env_coq(case['env'])}, {core.cbytes(bytes.fromhex(case['data']))}, {core.cz(case['pos'])}, {ptype_coq(case['type'])})"
+
+
+# ---------------------------------------------------------------- containers / whole definitions
+def container_coq(c, params):
+    es = core.clist((f"EParam {param_coq(params[e[1]])}" if e[0] == "p" else f"EContainer {core.cstr(e[1])}") for e in c["entries"])
+    base = "None" if c.get("base") is None else f"(Some {core.cstr(c['base'])})"
+    return (f"{{| k_name := {core.cstr(c['name'])}; k_entries := {es}; k_abstract := {core.cbool(c.get('abstract', False))}; "
+            f"k_base := {base}; k_criteria := {vals.criteria_coq(c.get('criteria', []))}; "
+            f"k_inheritors := {core.clist(core.cstr(n) for n in c.get('inheritors', []))} |}}")
+
+
+def definition_coq(doc):
+    return core.clist(container_coq(c, doc["params"]) for c in doc["containers"])
+
+
+def definition_py(doc):
+    """XtcePacketDefinition built from objects; one object per name (parameters, containers)."""
+    from space_packet_parser.xtce import containers, definitions
+    pcache, ccache = {}, {}
+    by_name = {c["name"]: c for c in doc["containers"]}
+
+    def build(name):
+        if name in ccache:
+            return ccache[name]
+        c = by_name[name]
+        entries = [param_py(doc["params"][e[1]], pcache) if e[0] == "p" else build(e[1]) for e in c["entries"]]
+        obj = containers.SequenceContainer(name=name, entry_list=entries, abstract=c.get("abstract", False),
+                                           base_container_name=c.get("base"),
+                                           restriction_criteria=[vals.criterion_py(k) for k in c.get("criteria", [])] or None,
+                                           inheritors=list(c.get("inheritors", [])) or None,
+                                           short_description=c.get("short"), long_description=c.get("long"))
+        ccache[name] = obj
+        return obj
+    objs = [build(c["name"]) for c in doc["containers"]]
+    return definitions.XtcePacketDefinition(objs, root_container_name=doc["root"])
+
+
+def env_out(packet):
+    return [[[ord(ch) for ch in k], value_out(v)] for k, v in packet.items()]
